@@ -329,6 +329,34 @@ func C03(run *mon.Run) {
 		}(si)
 	}
 	wg.Wait()
+	// two cancelling invalid entries at an exact index distance d (all other entries valid), for distances at
+	// the sizes an index or a coefficient table might wrap at: the pair must still be reported invalid
+	dists := []int{64, 128, 255, 256, 257}
+	if !run.Quick() {
+		dists = append(dists, 8, 16, 32, 127, 129, 512, 1024)
+	}
+	for di, d := range dists {
+		for ki, kind := range []string{"swapped-pair", "plus-minus-d"} {
+			wg.Add(1)
+			sem <- struct{}{}
+			go func(di, d, ki int, kind string) {
+				defer wg.Done()
+				defer func() { <-sem }()
+				defer run.Protect("c03 worker")
+				r := run.Rand(fmt.Sprintf("distance-%d-%d", d, ki))
+				n := d + 1 + r.IntN(40)
+				i := r.IntN(n - d)
+				b, err := c03Build(r, n, []int{i, i + d}, kind, h, hn)
+				if err != nil {
+					return
+				}
+				c03Check(run, b, fmt.Sprintf("cancelling pair at distance %d (positions %d and %d of %d)", d, i, i+d, n))
+				run.Shape(fmt.Sprintf("distance|%d|%s", d, kind))
+				run.Count("distance.cases", 1)
+			}(di, d, ki, kind)
+		}
+	}
+	wg.Wait()
 	// input errors: all-false slice plus the documented class
 	c03Errors(run)
 	run.Require(run.Counter("exhaustive.cases") == int64(len(jobs)), "exhaustive (n, subset, kind) table incomplete")
